@@ -6,13 +6,16 @@ spec:     specs/c07_actions  ActionsP (property relation ReqOK/RespOK + referenc
 binding:  harness/cmd/c07 executes the real routing.getSPOEReqActions / getSPOERespActions (export_verif_c07.go) and the real
           runner.runOnRequest / runOnResponse over real remedy plugins (actions observed at verif points runner.*_action)
 """
-import json, os
+import json, os, re
 from vlib import Broken, read_ndjson
 from fnjudge import judge_cases, exhaustive_parallel
 
 SPEC = "c07_actions"
 REFUTED = ["swap_merge", "modh_early_left", "resp_noop_self", "gen_modh_drop"]     # must be refuted by TLC (non-vacuity)
 ACCEPTED = ["status_later", "retry_wins"]                                          # not forbidden by the statement: must pass
+
+REQ_KINDS = ["noop", "early", "modh", "modreq", "gen"]
+RESP_KINDS = ["noop", "modresp", "retry"]
 
 HKEYS = ["a", "b", "x-id", "Authorization", "x-lunar-retry-after", "X-ID"]
 HVALS = ["1", "2", "", "v w", "tok:en", "zé"]
@@ -128,7 +131,13 @@ def witness_of(e):
 
 def judge(ctx, binary, cases, events, tag, seen):
     """TLC judges the real outputs; every rejection is re-executed and re-judged before it is reported."""
-    rej = judge_cases(ctx, SPEC, "ActionsTrace", events, tag)
+    drift = set()
+    rej = judge_cases(ctx, SPEC, "ActionsTrace", events, tag, drift=drift)
+    drift -= set(rej)
+    if drift:      # accepted by P but not what the implementation-shaped model computes: the exhaustive result no longer covers the code
+        ctx.cov["model_drift"] = True
+        ctx.notes.append("MODEL-DRIFT (%s): %d real outputs permitted by ActionsP differ from ActionsI, e.g. %s" % (
+            tag, len(drift), json.dumps(events[min(drift)])[:500]))
     ctx.cov["evaluations"] += len(events)
     ctx.cov["traces_validated_against_impl"] += len(events) - len(rej)
     for e in events:
@@ -169,6 +178,15 @@ def run(ctx):
     runs += [("MC_small_%s.cfg" % b, "non-vacuity: %s must be refuted" % b, "Conforms") for b in REFUTED]
     runs += [("MC_small_%s.cfg" % b, "permissiveness: %s must be accepted" % b, "accepted") for b in ACCEPTED]
     exhaustive_parallel(ctx, sd, "MC_C07", runs, workers=4 if not T else 8, par=7 if not T else 3)
+
+    # non-vacuity witness: every cell of the 5x5 and 3x3 tables was evaluated by the exploration
+    r = ctx.tlc(sd, "MC_C07", "MC_small_cov.cfg", workers=1, timeout=300, label="table-cell coverage witness")
+    cells = set(re.findall(r'<<"(req|resp)", "(\w+)", "(\w+)">>', r.out))
+    want = {("req", x, y) for x in REQ_KINDS for y in REQ_KINDS} | {("resp", x, y) for x in RESP_KINDS for y in RESP_KINDS}
+    if not r.ok or cells != want:
+        raise Broken("table cells never evaluated by the model (vacuous): %s  %r" % (sorted(want - cells), r))
+    ctx.notes.append("model exploration evaluated all %d cells of the request table and all %d cells of the response table" % (
+        len(REQ_KINDS) ** 2, len(RESP_KINDS) ** 2))
 
     seen = set()
     # (2) spec -> code: the whole bounded input space, generated by TLC with the reference result, replayed
@@ -247,6 +265,10 @@ def run(ctx):
     if rj != list(range(len(bad))):
         raise Broken("binding self-test: corrupted events accepted by the spec: %s" % [bad[i][0] for i in range(len(bad)) if i not in rj])
     ctx.notes.append("self-test: corrupted events rejected: %s" % ", ".join(n for n, _ in bad))
+
+
+    if ctx.cov["model_drift"]:        # DESIGN.md 2.5: the exhaustive result is then not counted as covering the code
+        ctx.cov["states"] = ctx.cov["transitions"] = 0
 
 
 def replay(ctx, path):
